@@ -1132,6 +1132,27 @@ def gen_rmsd_case(rng):
     return c
 
 
+def gen_repeated_init_case(rng):
+    """OUTSIDE the quantifier (init centers are distinct frames of the data): an init frame given twice.  The code
+    then reports fewer center indices than center coordinates; nothing of the property is evaluated, the run
+    only checks that Model.Cluster mirrors the code on this input as well."""
+    kind = str(rng.choice(['kcenters', 'KCenters.fit', 'hybrid']))
+    c = gen_case(rng, kind=kind)
+    n = Problem(c).n
+    base = [int(i) for i in rng.choice(n, size=int(rng.integers(1, min(n, 3) + 1)), replace=False)]
+    init = base + [base[int(rng.integers(0, len(base)))]]
+    c['init'] = [init[i] for i in rng.permutation(len(init))]
+    c['init_form'] = str(rng.choice(['array', 'list']))
+    if c.get('n_clusters') is None and (c.get('cutoff') in (None, 0)):
+        c['n_clusters'] = len(init)
+    if kind == 'hybrid':
+        c['rs'] = 'rec'
+    c.pop('tri', None)
+    c['outside'] = 'repeated-init-frame'
+    c['family'] = 'outside-quantifier'
+    return c
+
+
 def audit_families(ctx, kinds=None):
     """the families added by the generator blind-spot audit (classes 2-6), both tiers"""
     rng = ctx.rng
@@ -1155,6 +1176,8 @@ def audit_families(ctx, kinds=None):
         cases.append(gen_reuse_case(rng))
     for _ in range(ctx.n(30, 400)):                       # class 6
         cases.append(gen_config_case(rng))
+    for _ in range(ctx.n(8, 80)):                         # outside the quantifier: model vs code only
+        cases.append(gen_repeated_init_case(rng))
     if kinds is not None:
         cases = [c for c in cases if c['kind'] in kinds]
     return cases
@@ -1335,6 +1358,13 @@ def phase1(ctx, case, area='C01'):
         tags.append('k=1' if k_guess == 1 else 'k=n' if k_guess == P.n else 'k>n' if k_guess > P.n else '1<k<n')
     ctx.case(case, nontrivial=('ok' in out and k_guess >= 2 and P.n > k_guess) or kind == 'pam_update', tags=tags)
 
+    if case.get('outside'):
+        # input outside the property's quantifier: no predicate, only code vs model
+        ctx.tag('outside-quantifier:' + case['outside'])
+        if USE_MODEL and not P.skip_model:
+            oracle = oracle_positions(out['log']) if out.get('log') else []
+            rec['rq'] = model_request(P, case, oracle=oracle, area=area)
+        return rec
     if kind == 'assign_xyz':
         # per-frame argmin branch (more centers than frames, centers are an md.Trajectory)
         if 'error' in out:
@@ -1598,7 +1628,7 @@ def _run(ctx):
     check_cases(ctx, cases)
     need = ['pam-branch-dn', 'pam-branch-other', 'pam-branch-this', 'pam-accept', 'pam-reject',
             'pam-all-three-branches', 'model-agrees', 'sweep-by-sweep-agrees', 'assign-argmin-branch',
-            'large-n', 'center-index>=256', 'k>255', 'n>65536', 'family=containers',
+            'large-n', 'center-index>=256', 'k>255', 'n>65536', 'family=containers', 'outside-quantifier:repeated-init-frame',
             'family=scaled', 'family=exact-ties', 'family=degenerate', 'family=reuse', 'family=config',
             'pam-exact-tie-other-candidate', 'pam-exact-tie-with-label-swap', 'pam-accept-after-exact-tie', 'same-objects-reused',
             'fed-back-rounds-agree', 'proposals=current-medoids', 'singleton-cluster', 'inds_form=array32',
